@@ -127,7 +127,9 @@ func (r *PairRun) Enabled() []wx.Op {
 	ops := r.a.Enabled()
 	out := make([]wx.Op, 0, len(ops)+4)
 	for _, o := range ops {
-		if o.K == OpReset {
+		if o.K == OpReset && !(r.cfg.Load && r.b == nil) {
+			// Reset of the first world is its own operation in the Reset pairs; before a dump is loaded it is an ordinary
+			// operation of the history (the dumped world may have been reset before)
 			continue
 		}
 		if r.cfg.Load && r.b != nil {
